@@ -93,7 +93,7 @@ class Workspace:
         # (default-members: what a bare `cargo build` at the workspace root builds is not every buildpack)
         self._write("Cargo.toml", "[workspace]\nresolver = \"2\"\nmembers = [\n" + "".join(f'  "{m}",\n' for m in members) + "]\n"
                     + f'default-members = ["{members[-1]}"]\n')
-        self._write(".ignore", "packaged/\ncustom-out/\nrel-out/\n")
+        self._write(".ignore", "packaged/\ncustom-out/\nrel-out/\nalt-target/\n")
 
     def _write(self, rel, text):
         p = os.path.join(self.root, rel)
@@ -165,7 +165,7 @@ def expected_tree(ws, bid, pkgdir, profile):
     exp["buildpack.toml"] = ("file", sha(os.path.join(src, "buildpack.toml")))
     if bid in ws.crates:
         c = ws.crates[bid]
-        tdir = os.path.join(ws.root, "target", TARGET, profile)
+        tdir = os.path.join(getattr(ws, "target_dir", None) or os.path.join(ws.root, "target"), TARGET, profile)
         exp["bin"] = ("dir",)
         exp["bin/build"] = ("file", sha(os.path.join(tdir, c["main"])))
         exp["bin/detect"] = ("link", "build")
@@ -381,10 +381,10 @@ def run(ctx):
     distinct = 0
     order_events = []
 
-    def package(ws, cwd, extra=(), expect_ok=True):
+    def package(ws, cwd, extra=(), expect_ok=True, env_extra=None):
         nonlocal evaluations
         evaluations += 1
-        p = sh([cargo_libcnb, "libcnb", "package", "--target", TARGET, "--no-cross-compile-assistance", *extra], cwd=cwd, env=env)
+        p = sh([cargo_libcnb, "libcnb", "package", "--target", TARGET, "--no-cross-compile-assistance", *extra], cwd=cwd, env=dict(env, **(env_extra or {})))
         if expect_ok and p.returncode != 0:
             ctx.violation("packaging failed", f"cargo libcnb package failed in {os.path.relpath(cwd, ws.root)} {extra}: {p.stderr[-600:]}",
                           {"cwd": cwd, "extra": list(extra)}, "cargo_libcnb")
@@ -511,6 +511,18 @@ def run(ctx):
                 for x in ws.all_ids():
                     for e in compare(ws, x, pkgdir, profile):
                         ctx.violation("output not refreshed after a source change", f"{label}: {e}", {"label": label, "buildpack": x}, "cargo_libcnb")
+            # (e) ... and once more with Cargo told to build somewhere else (CARGO_TARGET_DIR): the binaries packaged
+            # are the ones of this build, not what an earlier run left in <workspace>/target
+            if profile == "debug":
+                ws.edit_source(b)
+                ws.target_dir = os.path.join(ws.root, "alt-target")
+                p = package(ws, ws.root, extra_args, env_extra={"CARGO_TARGET_DIR": ws.target_dir})
+                if p.returncode == 0:
+                    for x in ws.all_ids():
+                        for e in compare(ws, x, pkgdir, profile):
+                            ctx.violation("output not from this build (other target directory)", f"{label}: {e}", {"label": label, "buildpack": x}, "cargo_libcnb")
+                ws.target_dir = None
+                package(ws, ws.root, extra_args)     # back to the default target directory for what follows
         ctx.sample({"workspace": wi, "crates": {k: v["bins"] for k, v in ws.crates.items()}, "composites": {k: v["deps"] for k, v in ws.composites.items()}})
     # the printed build orders are behaviours of the emit machine
     wd = ctx.workdir("orders")
